@@ -2,7 +2,7 @@
    This file holds only the property theorems, each closed by `exact <lemma>`, with
    Print Assumptions beneath, and non-vacuity examples.
    Model: C12/Model.v (tied to distsys/resources/{gcounter,aworset,lww}.go by ./check C12). *)
-From PGV Require Import C12.Model C12.ProofsAL C12.ProofsGC C12.ProofsSys C12.ProofsGCHist C12.ProofsLWW C12.ProofsAW C12.ProofsConv C12.ProofsSysX C12.ProofsAWSeq C12.ProofsAWRO.
+From PGV Require Import C12.Model C12.ProofsAL C12.ProofsGC C12.ProofsSys C12.ProofsGCHist C12.ProofsLWW C12.ProofsAW C12.ProofsConv C12.ProofsSysX C12.ProofsAWSeq C12.ProofsAWRO C12.ProofsAWAR.
 From Coq Require Import Lia.
 Open Scope Z_scope.
 
@@ -430,4 +430,58 @@ Proof.
     destruct H as (_ & _ & H). specialize (H (mkEv 0 0%nat (1, 7))).
     assert (Hl : logged (g_log (snd (aw_xrun [OWrite 0 (1, 7)]))) (mkEv 0 0%nat (1, 7))) by (eexists; vm_compute; reflexivity).
     specialize (H Hl eq_refl). vm_compute in H. exact H.
+Qed.
+
+(* ================================================================ AWORSet: exactly the complement of the known finding *)
+(* aw_addrem_ordered ops: whenever a replica adds (removes) element e, every remove (add) of e performed so far by
+   any replica has been delivered to it — no add of an element is concurrent with a remove of it. Adds may be
+   concurrent with adds, removes with removes. The known finding needs an add concurrent with a remove of the
+   same element, so the proved class and the known-finding class are complementary.
+   `inTop log D e addOp a`: a is a delivered add of e whose clock is above that of every delivered remove of e. *)
+Theorem aworset_convergence_addrem_ordered : forall ops r1 r2, aw_addrem_ordered ops ->
+  same_updates (aw_delivered ops r1) (aw_delivered ops r2) ->
+  forall e, In e (aw_read (reps (aw_run ops) r1)) <-> In e (aw_read (reps (aw_run ops) r2)).
+Proof. intros ops r1 r2 H1 H2. exact (proj2 (aw_ar_convergence ops r1 r2 H1 H2)). Qed.
+Print Assumptions aworset_convergence_addrem_ordered.
+
+Theorem aworset_read_addrem_ordered : forall ops r e, aw_addrem_ordered ops ->
+  (In e (aw_read (reps (aw_run ops) r)) <->
+   exists a, inTop (g_log (snd (aw_xrun ops))) (aw_delivered ops r) e addOp a).
+Proof. intros ops r e H. exact (aw_ar_read ops r e H). Qed.
+Print Assumptions aworset_read_addrem_ordered.
+
+Theorem aworset_removes_ordered_is_addrem_ordered : forall ops, aw_removes_ordered ops -> aw_addrem_ordered ops.
+Proof. exact aw_removes_ordered_addrem_ordered. Qed.
+Print Assumptions aworset_removes_ordered_is_addrem_ordered.
+
+(* non-vacuity: replica 0 adds 7; replicas 1 and 2 both receive it and remove 7 CONCURRENTLY; replicas 3 and 4 receive
+   the two removes in different orders; replica 3, having seen everything, adds 7 again. In the class, not in
+   aw_removes_ordered. *)
+Definition aw_ar_example : list aw_op :=
+  [OWrite 0 (1, 7); OSnap 0 false; ODeliver 1 0%nat; ODeliver 2 0%nat; OWrite 1 (2, 7); OWrite 2 (2, 7);
+   OSnap 1 true; OSnap 2 false; ODeliver 3 1%nat; ODeliver 3 2%nat; ODeliver 4 2%nat; ODeliver 4 1%nat; OWrite 3 (1, 7)].
+
+Example aworset_addrem_ordered_nonvacuous :
+  aw_addrem_ordered aw_ar_example /\ ~ aw_removes_ordered aw_ar_example /\
+  aw_read (reps (aw_run (removelast aw_ar_example)) 3) = [] /\ aw_read (reps (aw_run aw_ar_example) 4) = [] /\
+  aw_read (reps (aw_run aw_ar_example) 3) = [7].
+Proof.
+  split; [|split; [|split; [|split]; vm_compute; reflexivity]].
+  - unfold aw_addrem_ordered, aw_ar_example.
+    change [OWrite 0 (1, 7); OSnap 0 false; ODeliver 1 0%nat; ODeliver 2 0%nat; OWrite 1 (2, 7); OWrite 2 (2, 7);
+            OSnap 1 true; OSnap 2 false; ODeliver 3 1%nat; ODeliver 3 2%nat; ODeliver 4 2%nat; ODeliver 4 1%nat; OWrite 3 (1, 7)]
+      with (((((((((((((([] : list aw_op) ++ [OWrite 0 (1, 7)]) ++ [OSnap 0 false]) ++ [ODeliver 1 0%nat]) ++ [ODeliver 2 0%nat]) ++ [OWrite 1 (2, 7)]) ++ [OWrite 2 (2, 7)]) ++
+            [OSnap 1 true]) ++ [OSnap 2 false]) ++ [ODeliver 3 1%nat]) ++ [ODeliver 3 2%nat]) ++ [ODeliver 4 2%nat]) ++ [ODeliver 4 1%nat]) ++ [OWrite 3 (1, 7)]).
+    repeat (apply validx_snoc_intro); try apply validx_nil; intros r a E; inversion E; subst; clear E.
+    all: split; [vm_compute; reflexivity|]; split; [cbn; unfold isPol, addOp, remOp; tauto|];
+      intros [ry ky ay] [s Hs] He Hcy; unfold elem_of, cmd_of in *; cbn [ev_arg ev_rep ev_seq fst snd] in *;
+      (destruct ry as [|p|p]; try destruct p as [p|p|]; try destruct p as [p|p|]; vm_compute in Hs;
+       destruct ky as [|[|[|ky]]]; try discriminate Hs; inversion Hs; subst; cbn in *; try discriminate; try lia; vm_compute; tauto).
+  - (* the second remove is performed without the first one having been delivered *)
+    intros H. specialize (H [OWrite 0 (1, 7); OSnap 0 false; ODeliver 1 0%nat; ODeliver 2 0%nat; OWrite 1 (2, 7)] 2 (2, 7)
+            [OSnap 1 true; OSnap 2 false; ODeliver 3 1%nat; ODeliver 3 2%nat; ODeliver 4 2%nat; ODeliver 4 1%nat; OWrite 3 (1, 7)] eq_refl).
+    destruct H as (_ & _ & _ & H). specialize (H eq_refl (mkEv 1 0%nat (2, 7))).
+    assert (Hl : logged (g_log (snd (aw_xrun [OWrite 0 (1, 7); OSnap 0 false; ODeliver 1 0%nat; ODeliver 2 0%nat; OWrite 1 (2, 7)]))) (mkEv 1 0%nat (2, 7)))
+      by (eexists; vm_compute; reflexivity).
+    specialize (H Hl eq_refl). vm_compute in H. destruct H as [H|[]]. discriminate H.
 Qed.
